@@ -99,13 +99,13 @@ def model_histories(ctx):
     model = core.Model()
     try:
         kinds = ('default', '2d', 'general', 'zslice', 'default', 'b0is4')
-        for hnum, fi in enumerate(files.read_files(ctx, rng, 36 if ctx.quick else 600, kinds=kinds, max_voxels=12_000)):
+        for hnum, fi in enumerate(files.read_files(ctx, rng, ctx.n(36, 600), kinds=kinds, max_voxels=12_000)):
             nread = 1 + hnum % 3
             cfgs = [(bool((hnum + r) % 4 == 3), [1, 2, None][(hnum + r) % 3]) for r in range(nread)]
             base = readcheck.in_range_ops(rng, fi, 2) + readcheck.out_of_range_ops(rng, fi, 1)[:2]
             base = [o for o in base if histcorr.op_line(0, o) is not None]
             hist = []
-            while len(hist) < (30 if ctx.quick else 80):
+            while len(hist) < (ctx.n(30, 80)):
                 o = base[int(rng.integers(len(base)))]
                 rid = int(rng.integers(nread))
                 r = rng.random()
@@ -133,13 +133,13 @@ def header_histories(ctx, n_quick=30, n_thorough=600, kinds=('regular', 'irregul
     rng = gen.rng_for(ctx.seed, tag)
     model = core.Model()
     try:
-        for hnum in range(n_quick if ctx.quick else n_thorough):
+        for hnum in range(ctx.n(n_quick, n_thorough)):
             kind = kinds[hnum % len(kinds)]
             p = ctx.path('hh.sgz')
             fd = hdrcorr.make_file(p, rng, kind)
             T = fd['grid'] - len(fd['holes'])
             ops = []
-            for _ in range(14 if ctx.quick else 30):
+            for _ in range(ctx.n(14, 30)):
                 r = rng.random()
                 t = int(rng.choice([0, T - 1, T, fd['grid'] - 1, fd['grid'], int(rng.integers(fd['grid'] + 2))]))
                 if r < .35:
@@ -171,8 +171,8 @@ def run(ctx):
     model_histories(ctx)
     header_histories(ctx)
     rng = gen.rng_for(ctx.seed, 'c15')
-    n_hist = 60 if ctx.quick else 1500
-    length = 40 if ctx.quick else 200
+    n_hist = ctx.n(60, 1500)
+    length = ctx.n(40, 200)
     kinds = ('default', 'irregular', '2d', 'general', 'zslice', 'default', 'irregular', 'b0is4')
     gen_files = files.read_files(ctx, rng, n_hist, kinds=kinds, max_voxels=20_000)
     for hnum, fi in enumerate(gen_files):
